@@ -329,19 +329,6 @@ Proof.
   destruct (inv_w_thr s Hinv t Ht) as (_ & Rs & _). now apply Rs.
 Qed.
 
-Lemma case_X1070_expired : forall s t, Inv s -> t < s_n s -> t_pc (s_thr s t) = X1070 ->
-  Inv (put_thr s t (finish (s_thr s t) RNone)).
-Proof.
-  intros s t Hinv Ht Hpc.
-  eapply inv_finish with (s := s) (t := t); try reflexivity; try assumption;
-    try (match goal with |- xwinpc _ = false => first [rewrite Hpc; reflexivity | destruct Hpc as [-> | ->]; reflexivity] end).
-  - intros o1 _. reflexivity.
-  - apply lc_same; [reflexivity | simpl; now rewrite Hpc].
-  - apply wc_same; [reflexivity |]. intros o1 _. unfold wl. simpl. rewrite Hpc. simpl.
-    split; intros (A & _); discriminate.
-  - unfold mov_of. now rewrite Hpc.
-Qed.
-
 Lemma case_X1072 : forall s t, Inv s -> t < s_n s -> t_pc (s_thr s t) = X1072 ->
   o_wlock (s_heap s (self_of (s_thr s t))) = None ->
   Inv (put_thr (with_heap s (set_obj_wlock (s_heap s) (self_of (s_thr s t)) (Some t)) (s_nextobj s)) t
@@ -360,7 +347,7 @@ Proof.
 Qed.
 
 
-Lemma case_X1070_expired_idle : forall s t, Inv s -> t < s_n s -> t_pc (s_thr s t) = Idle ->
+Lemma case_noop_idle : forall s t, Inv s -> t < s_n s -> t_pc (s_thr s t) = Idle ->
   Inv (put_thr s t (finish (s_thr s t) RNone)).
 Proof.
   intros s t Hinv Ht Hpc.
@@ -763,7 +750,7 @@ Proof.
 Qed.
 
 Lemma case_start_expire : forall s t o, Inv s -> t < s_n s -> t_pc (s_thr s t) = Idle -> o < s_nextobj s ->
-  Inv (put_thr s t (set_pc (set_self (s_thr s t) (Some o)) X1070)).
+  Inv (put_thr s t (set_pc (set_self (s_thr s t) (Some o)) X1072)).
 Proof.
   intros s t o Hinv Ht Hpc Ho.
   eapply inv_thr_step with (s := s) (t := t) (new := None); try reflexivity; thr_obl s t Hinv Ht Hpc.
@@ -1184,15 +1171,6 @@ Qed.
 
 
 (* expire() returns into the loop of sqlmeta.expireAll *)
-Lemma case_X1070_expired_mex : forall s t, Inv s -> t < s_n s -> t_pc (s_thr s t) = X1070 ->
-  Inv (put_thr s t (set_pc (set_self (s_thr s t) None) Z682)).
-Proof.
-  intros s t Hinv Ht Hpc.
-  eapply inv_thr_step with (s := s) (t := t) (new := None); try reflexivity; thr_obl s t Hinv Ht Hpc.
-  - apply wc_same; [reflexivity |]. intros o _. unfold wl. simpl. rewrite Hpc. simpl. split; intros (A & _); discriminate.
-  - intros i o e H. exact (hold_th_nontagged (s_thr s t) _ i o e H eq_refl eq_refl).
-Qed.
-
 Lemma case_X1083_mex : forall s t, Inv s -> t < s_n s -> t_pc (s_thr s t) = X1083 ->
   Inv (put_thr (with_heap s (set_obj_wlock (s_heap s) (self_of (s_thr s t)) None) (s_nextobj s)) t
          (set_pc (set_self (s_thr s t) None) Z682)).
@@ -1256,7 +1234,7 @@ Proof.
     | do_goto s Hinv t Hlt Hpc Hstep
     | apply Nat.ltb_lt in Hg;
       destruct (nth k (t_slots (s_thr s t')) RNone) as [o i e | | |] eqn:Hs;
-        try (inversion Hstep; subst; now apply case_X1070_expired_idle);
+        try (inversion Hstep; subst; now apply case_noop_idle);
       unfold goto in Hstep; inversion Hstep; subst; apply case_start_expire; try assumption;
       destruct (inv_w_thr s Hinv t' Hg) as (_ & _ & Rl); apply (Rl o i e);
       rewrite <- Hs; apply nth_In; destruct (Nat.lt_ge_cases k (length (t_slots (s_thr s t')))); [assumption |];
@@ -1265,7 +1243,7 @@ Proof.
     | do_goto s Hinv t Hlt Hpc Hstep
     | apply Nat.eqb_eq in Hg; subst t'; rewrite Nat.eqb_refl in Hstep;
       destruct (nth k (t_slots (s_thr s t)) RNone); inversion Hstep; subst;
-        first [now apply case_drop_own | now apply case_X1070_expired_idle] ]
+        first [now apply case_drop_own | now apply case_noop_idle] ]
   | _ = F100 => unfold goto in Hstep; inversion Hstep; subst; apply case_enter_cull; auto
   | _ = K178 => unfold goto in Hstep; inversion Hstep; subst; apply case_enter_cull; auto
   | _ = F105 =>
@@ -1304,11 +1282,6 @@ Proof.
     unfold release in Hstep;
     assert (L : s_lock s = Some t) by (apply (inv_lock s Hinv t Hlt); rewrite Hpc; reflexivity);
     rewrite L in Hstep; inversion Hstep; subst; now apply case_K181r
-  | _ = X1070 =>
-    destruct (o_expired (s_heap s (self_of (s_thr s t))));
-    [ unfold expire_return in Hstep; destruct (t_mex (s_thr s t)); unfold goto in Hstep; inversion Hstep; subst;
-      [ now apply case_X1070_expired_mex | now apply case_X1070_expired ]
-    | do_goto s Hinv t Hlt Hpc Hstep ]
   | _ = X1072 =>
     destruct (o_wlock (s_heap s (self_of (s_thr s t)))) eqn:W; [discriminate |];
     unfold goto in Hstep; inversion Hstep; subst; now apply case_X1072
